@@ -116,6 +116,32 @@ def early_disconnect_scenario(r, it, tier):
     sim.run(int(27_000_000_000 // dt) + 4, dt, silent)
     return sim
 
+def busy_server_scenario(r, it, tier):
+    """one peer goes silent while the server is busy with others (handshakes in progress, graceful disconnects lingering, requests
+    being repeated): its timeout must be reported at its own deadline, not when the server's timer queue happens to be empty."""
+    sim = EpSim(r, inter=it)
+    T = r.pick([1000, 3000, 8000])
+    cfg = dict(DEFAULT_EP, timeout=T, ka=r.pick([0, 1]))
+    sim.srv(8, 8, r.pick([0, 1]), cfg)
+    lat = r.pick([0, 5_000_000])
+    nets = {"c2s": Net(latency=lat), "s2c": Net(latency=lat)}
+    sim.nets = nets
+    dt = r.pick([20_000_000, 50_000_000, 100_000_000])
+    sim.dt = dt
+    sim.cli(0, dict(DEFAULT_EP), nets)
+    sim.run(r.range(5, 15), dt, nets)
+    nets[(0, "c2s")] = Net(loss=1000); nets[(0, "s2c")] = Net(loss=1000)        # peer 0 vanishes
+    nxt = [1]; alive = []
+    def actions(sim):
+        if r.chance(1, max(1, int(1_200_000_000 // dt))):
+            if alive and r.chance(1, 2):
+                j = alive.pop(0)
+                sim.call(r.pick(["cdisc", "cdiscnow", "sdisc"]), j)
+            elif nxt[0] < 7:
+                sim.cli(nxt[0], dict(DEFAULT_EP), nets); alive.append(nxt[0]); nxt[0] += 1
+    sim.run(int((T + 6000) * 10**6 // dt), dt, nets, actions)
+    return sim
+
 def streams(rng, tier, ctx):
     n = 36 if tier == "quick" else 360
     it = Interactive("ep")
@@ -129,7 +155,9 @@ def streams(rng, tier, ctx):
                 sim = handshake_delay_scenario(r, it, tier)
             elif fam == 1:
                 sim = idle_scenario(r, it, tier)
-            elif fam >= 4:
+            elif fam == 5:
+                sim = busy_server_scenario(r, it, tier)
+            elif fam == 4:
                 sim = early_disconnect_scenario(r, it, tier)
             else:
                 sim = E.general_scenario(r, it, tier, variants=True, forge=False, disconnects=(fam == 3), dt_choices=(50_000_000, 500_000_000, 1_000_000_000))
@@ -284,6 +312,42 @@ def oracle(stream, cid, ops, outs):
                 fails.append({"oracle": "timeout_sound", "detail": "server: Error(Timeout) for peer %d at %d ms although a frame was received at %d ms (active_timeout %d ms)" %
                               (p, te // 10**6, max(rx) // 10**6, Ts // 10**6), "signature": {"oracle": "timeout_sound", "side": "server"}})
                 break
+    # server side, promptness: an established connection that has been silent for active_timeout is reported (Error(Timeout))
+    # by the first server step at or after the deadline - whatever else the server is busy with (other peers' handshakes, lingering
+    # entries, pending timers)
+    if sim.srv_cfg:
+        Ts = sim.srv_cfg["timeout"] * 10**6
+        sstep_times = []
+        tcur = 0
+        for op in ops:
+            w = op.split(" ")
+            if w[0] == "t": tcur = int(w[1])
+            elif w[0] == "sstep": sstep_times.append(tcur)
+        for p in sorted(set(q for (_, tag, q, _) in sev if tag == "C")):
+            evs_p = [(t, tag, x) for (t, tag, q, x) in sev if q == p]
+            for k, (tc, tag, _) in enumerate(evs_p):
+                if tag != "C":
+                    continue
+                term = next(((t, g, x) for (t, g, x) in evs_p[k + 1:] if g in ("D", "E")), None)
+                # the server leaves Active also by its own disconnect()/drop() or by the peer's disconnect request: judge up to then
+                left = [t for (t, w, q) in calls if q == p and w in ("sdisc", "sdiscnow", "sdrop") and t >= tc] + \
+                       [t for (t, dr, q, d) in delivered if dr == "c2s" and q == p and d.get("kind") == "disc" and t >= tc]
+                horizon = min(left) if left else None
+                rx = [tc] + [t for (t, dr, q, d) in delivered if dr == "c2s" and q == p and t >= tc and d.get("kind") in ("D", "A", "S")]
+                for st in sstep_times:
+                    if st <= tc or (term is not None and st >= term[0]) or (horizon is not None and st >= horizon):
+                        continue
+                    last = max(t for t in rx if t <= st)
+                    if st >= last + Ts + 1_000_000:
+                        fails.append({"oracle": "timeout_prompt", "detail": "server: peer %d still established after the step at %d ms, last frame at %d ms, active_timeout %d ms" %
+                                      (p, st // 10**6, last // 10**6, Ts // 10**6), "signature": {"oracle": "timeout_prompt", "side": "server"}})
+                        break
+                else:
+                    continue
+                break
+            else:
+                continue
+            break
     if getattr(sim, "expect_no_timeout", False):
         for (t, tag, p, x) in sev:
             if tag == "E" and not any(q == p for (q, _) in attributed):
